@@ -677,6 +677,32 @@ Proof.
   destruct (loc_eqb m); reflexivity.
 Qed.
 
+Lemma perm_and_dis_spec_l {T} (decode : bytes -> option T) (loc_eqb : T -> bool) toks p ds :
+  perm_and_dis decode loc_eqb toks = Some (p, ds) ->
+  filter (fun t => match decode t with Some m => loc_eqb m | None => false end) toks = [p] /\
+  ds = filter (fun t => match decode t with Some m => negb (loc_eqb m) | None => false end) toks /\
+  In p toks /\ (exists m, decode p = Some m /\ loc_eqb m = true).
+Proof.
+  unfold perm_and_dis. rewrite find_perm_dis_spec_l.
+  set (fp := fun t => match decode t with Some m => loc_eqb m | None => false end).
+  destruct (filter fp toks) as [|q [|q' r]] eqn:E; try discriminate.
+  intros H. injection H as -> <-.
+  split; [reflexivity|]. split; [reflexivity|].
+  assert (Hin : In p (filter fp toks)) by (rewrite E; now left).
+  apply filter_In in Hin. destruct Hin as [Hin Hp]. split; [exact Hin|].
+  unfold fp in Hp. destruct (decode p) as [m|]; [|discriminate]. now exists m.
+Qed.
+
+(* a header without exactly one token of the wanted location yields no permission token -- in particular a lone token of
+   another location, or one that does not decode *)
+Lemma perm_and_dis_none_l {T} (decode : bytes -> option T) (loc_eqb : T -> bool) toks :
+  List.length (filter (fun t => match decode t with Some m => loc_eqb m | None => false end) toks) <> 1%nat ->
+  perm_and_dis decode loc_eqb toks = None.
+Proof.
+  unfold perm_and_dis. rewrite find_perm_dis_spec_l.
+  destruct (filter _ toks) as [|q [|q' r]]; cbn [List.length]; intros H; try reflexivity. now contradiction H.
+Qed.
+
 (* ================= bundle tokeniser vs Parse ================= *)
 
 Lemma trim_left_decomp s : exists ws, s = ws ++ trim_left s /\ spaces ws /\
